@@ -1,6 +1,6 @@
 /- Invariant group 3 of the pipeline model: provenance of every recorded read (its ghost value is
-   what the recorded version wrote, or the base value) and consistency of recorded runs with the
-   transaction's program. -/
+   what the recorded version wrote, or the value of the committed-state cache at some commit cursor
+   not beyond the current one) and consistency of recorded runs with the transaction's program. -/
 import Grevm.Lemmas.SchedInv2Step
 
 namespace Grevm.Sched
@@ -10,13 +10,14 @@ open Grevm.Block
 def ReadProv (P : Params) (s : State) (i : TxId) (r : ReadRec) : Prop :=
   match r.ver with
   | some (k, m) => k < i ∧ ∃ w, s.hist k m = some w ∧ lookup w r.loc = some r.val
-  | none => r.val = P.base r.loc
+  | none => ∃ c, c ≤ s.com ∧ r.val = cval P s c r.loc
 
 def toPairs (rs : List ReadRec) : List (Loc × Val) := rs.map (fun r => (r.loc, r.val))
 
 /-- Read lists held by the worker inside transaction `i`. -/
 def phaseReads : Phase → List ReadRec
   | .reading _ reads _ => reads
+  | .fetching _ _ reads _ => reads
   | .publishing run _ _ => run.reads
   | .removing run _ _ => run.reads
   | _ => []
@@ -25,6 +26,9 @@ def ConsPhase (P : Params) (s : State) (i : TxId) : Prop :=
   match s.phase i with
   | .reading p reads _ =>
       ∀ rest out, Consistent p rest out → Consistent (P.txs i) (toPairs reads.reverse ++ rest) out
+  | .fetching l k reads _ =>
+      ∀ rest out, Consistent (.read l k) rest out →
+        Consistent (P.txs i) (toPairs reads.reverse ++ rest) out
   | .publishing run _ _ => Consistent (P.txs i) (toPairs run.reads) (.ok run.writes run.out)
   | .removing run _ _ => Consistent (P.txs i) (toPairs run.reads) (.ok run.writes run.out)
   | _ => True
@@ -45,8 +49,12 @@ theorem inv3_init (P : Params) : Inv3 P init := by
   · simp [ConsPhase, init]
   · intro r h; simp [init] at h
 
+/-- Provenance is stable: the history only grows, the commit cursor only grows, and the results
+    below the commit cursor (hence the committed cache at every cursor position reached so far) are
+    never rewritten. -/
 theorem ReadProv.mono {P : Params} {s s' : State} {i : TxId} {r : ReadRec} (h : ReadProv P s i r)
-    (hm : ∀ k m w, s.hist k m = some w → s'.hist k m = some w) : ReadProv P s' i r := by
+    (hm : ∀ k m w, s.hist k m = some w → s'.hist k m = some w) (hcom : s.com ≤ s'.com)
+    (hfro : ∀ j, j < s.com → s'.result j = s.result j) : ReadProv P s' i r := by
   unfold ReadProv at h ⊢
   split
   · rename_i k m hv
@@ -54,37 +62,65 @@ theorem ReadProv.mono {P : Params} {s s' : State} {i : TxId} {r : ReadRec} (h : 
     obtain ⟨hk, w, hw, hl⟩ := h
     exact ⟨hk, w, hm k m w hw, hl⟩
   · rename_i hv
-    rw [hv] at h; exact h
+    rw [hv] at h
+    obtain ⟨c, hc, hval⟩ := h
+    refine ⟨c, Nat.le_trans hc hcom, ?_⟩
+    rw [hval]
+    exact (cval_frozen (fun j hj => hfro j (by omega))).symm
 
-/-- Frame: the read lists and result of `j` are unchanged and the history only grew. -/
+/-- The ghost history only grows. -/
+theorem step_hist_mono {P : Params} {s s' : State} (h2 : Inv2 s) (hs : Step P s s') :
+    ∀ k m w, s.hist k m = some w → s'.hist k m = some w := by
+  cases hs with
+  | execFinishOk i w o reads blocked hp =>
+    have hfresh : s.hist i (s.inc i) = none := by
+      have := (h2 i).hist.phase; unfold HistPhase at this; rw [hp] at this; exact this
+    intro k m w' hh
+    show (if k = i ∧ m = s.inc i then some w else s.hist k m) = some w'
+    split
+    · rename_i hc; rw [hc.1, hc.2, hfresh] at hh; cases hh
+    · exact hh
+  | _ => exact fun _ _ _ hh => hh
+
+/-- Provenance of a recorded read survives every step. -/
+theorem ReadProv.step {P : Params} {s s' : State} (h1 : Inv1 P s) (h2 : Inv2 s) (hs : Step P s s')
+    {i : TxId} {r : ReadRec} (h : ReadProv P s i r) : ReadProv P s' i r :=
+  h.mono (step_hist_mono h2 hs) (step_com_mono hs)
+    (fun j hj => (step_frozen h1 hs j (Nat.lt_of_lt_of_le hj h1.com_le.1)).1)
+
+/-- Frame: the read lists and result of `j` are unchanged and provenance is preserved. -/
 theorem TxInv3.frame {P : Params} {s s' : State} {j : TxId} (h : TxInv3 P s j)
     (hph : s'.phase j = s.phase j) (hres : s'.result j = s.result j)
-    (hm : ∀ k m w, s.hist k m = some w → s'.hist k m = some w) : TxInv3 P s' j := by
+    (hk : ∀ x, ReadProv P s j x → ReadProv P s' j x) : TxInv3 P s' j := by
   refine ⟨?_, ?_, ?_, ?_⟩
-  · intro r hr x hx; rw [hres] at hr; exact (h.res_prov r hr x hx).mono hm
-  · intro x hx; rw [hph] at hx; exact (h.phase_prov x hx).mono hm
+  · intro r hr x hx; rw [hres] at hr; exact hk x (h.res_prov r hr x hx)
+  · intro x hx; rw [hph] at hx; exact hk x (h.phase_prov x hx)
   · have := h.cons_phase; unfold ConsPhase at this ⊢; rw [hph]; exact this
   · intro r hr; rw [hres] at hr; exact h.cons_res r hr
 
-macro "other_tx3" h:ident j:ident hj:ident : tactic =>
+macro "other_tx3" h:ident keep:ident j:ident hj:ident : tactic =>
   `(tactic| exact ($h $j).frame (by simp [setPhase, updF, $hj:ident]) (by simp [setPhase, updF, $hj:ident])
-      (fun _ _ _ hh => hh))
+      (fun x => $keep $j x))
 
 theorem toPairs_append (a b : List ReadRec) : toPairs (a ++ b) = toPairs a ++ toPairs b := by
   simp [toPairs]
 
-theorem inv3_step {P : Params} {s s' : State} (h2 : Inv2 s) (h : Inv3 P s) (hs : Step P s s') :
-    Inv3 P s' := by
+theorem inv3_step {P : Params} {s s' : State} (h1 : Inv1 P s) (h2 : Inv2 s) (h : Inv3 P s)
+    (hs : Step P s s') : Inv3 P s' := by
+  have keep : ∀ (j : TxId) (x : ReadRec), ReadProv P s j x → ReadProv P s' j x :=
+    fun _ _ hx => hx.step h1 h2 hs
+  have rkeep : ∀ j r, s.result j = some r → ∀ x ∈ r.reads, ReadProv P s' j x :=
+    fun j r hr x hx => keep j x (TxInv3.res_prov (h j) r hr x hx)
   cases hs with
   | claimExec i hi hp hst =>
     intro j
     by_cases hj : j = i
     · subst hj
-      refine ⟨(h j).res_prov, ?_, ?_, (h j).cons_res⟩
+      refine ⟨rkeep j, ?_, ?_, (h j).cons_res⟩
       · intro x hx; simp [phaseReads] at hx
       · unfold ConsPhase; simp only [updF_same]
         intro rest out hc; simpa [toPairs] using hc
-    · other_tx3 h j hj
+    · other_tx3 h keep j hj
   | execReadMv i l k reads blocked j' e hp hr =>
     intro j
     by_cases hj : j = i
@@ -92,96 +128,102 @@ theorem inv3_step {P : Params} {s s' : State} (h2 : Inv2 s) (h : Inv3 P s) (hs :
       have hcp := (h j).cons_phase; unfold ConsPhase at hcp; rw [hp] at hcp
       have hpp := (h j).phase_prov; rw [hp] at hpp
       obtain ⟨hlt, hmv, _⟩ := resolve_some hr
-      refine ⟨(h j).res_prov, ?_, ?_, (h j).cons_res⟩
+      refine ⟨rkeep j, ?_, ?_, (h j).cons_res⟩
       · intro x hx
         simp only [setPhase, updF_same, phaseReads] at hx
         rcases List.mem_cons.mp hx with rfl | hx
         · obtain ⟨w, hw, hl⟩ := (h2 j').entry l e hmv
           exact ⟨hlt, w, hw, hl⟩
-        · exact hpp x hx
+        · exact keep j x (hpp x hx)
       · unfold ConsPhase; simp only [setPhase, updF_same]
         intro rest out hc
         have := hcp ((l, e.val) :: rest) out ⟨rfl, hc⟩
         simpa [toPairs, List.append_assoc] using this
-    · other_tx3 h j hj
-  | execReadBase i l k reads blocked hp hr =>
+    · other_tx3 h keep j hj
+  | execReadMiss i l k reads blocked hp hr =>
     intro j
     by_cases hj : j = i
     · subst hj
       have hcp := (h j).cons_phase; unfold ConsPhase at hcp; rw [hp] at hcp
       have hpp := (h j).phase_prov; rw [hp] at hpp
-      refine ⟨(h j).res_prov, ?_, ?_, (h j).cons_res⟩
+      refine ⟨rkeep j, ?_, ?_, (h j).cons_res⟩
+      · intro x hx
+        simp only [setPhase, updF_same, phaseReads] at hx
+        exact keep j x (hpp x hx)
+      · unfold ConsPhase; simp only [setPhase, updF_same]
+        exact hcp
+    · other_tx3 h keep j hj
+  | execFetch i l k reads blocked hp =>
+    intro j
+    by_cases hj : j = i
+    · subst hj
+      have hcp := (h j).cons_phase; unfold ConsPhase at hcp; rw [hp] at hcp
+      have hpp := (h j).phase_prov; rw [hp] at hpp
+      refine ⟨rkeep j, ?_, ?_, (h j).cons_res⟩
       · intro x hx
         simp only [setPhase, updF_same, phaseReads] at hx
         rcases List.mem_cons.mp hx with rfl | hx
-        · simp [ReadProv]
-        · exact hpp x hx
+        · refine ⟨s.com, Nat.le_refl _, ?_⟩
+          show cval P s s.com l = cval P (setPhase s j _) s.com l
+          exact Eq.symm (cval_frozen (fun _ _ => rfl))
+        · exact keep j x (hpp x hx)
       · unfold ConsPhase; simp only [setPhase, updF_same]
         intro rest out hc
-        have := hcp ((l, P.base l) :: rest) out ⟨rfl, hc⟩
+        have := hcp ((l, cval P s s.com l) :: rest) out ⟨rfl, hc⟩
         simpa [toPairs, List.append_assoc] using this
-    · other_tx3 h j hj
+    · other_tx3 h keep j hj
   | execFinishOk i w o reads blocked hp =>
-    have hfresh : s.hist i (s.inc i) = none := by
-      have := (h2 i).hist.phase; unfold HistPhase at this; rw [hp] at this; exact this
-    have hm : ∀ k m w', s.hist k m = some w' →
-        (if k = i ∧ m = s.inc i then some w else s.hist k m) = some w' := by
-      intro k m w' hh
-      split
-      · rename_i hc; rw [hc.1, hc.2, hfresh] at hh; cases hh
-      · exact hh
     intro j
     by_cases hj : j = i
     · subst hj
       have hcp := (h j).cons_phase; unfold ConsPhase at hcp; rw [hp] at hcp
       have hpp := (h j).phase_prov; rw [hp] at hpp
-      refine ⟨?_, ?_, ?_, (h j).cons_res⟩
-      · intro r hr x hx; exact ((h j).res_prov r hr x hx).mono hm
+      refine ⟨rkeep j, ?_, ?_, (h j).cons_res⟩
       · intro x hx
         simp only [updF_same, phaseReads] at hx
-        exact (hpp x (by simpa [phaseReads] using hx)).mono hm
+        exact keep j x (hpp x (by simpa [phaseReads] using hx))
       · unfold ConsPhase; simp only [updF_same]
         have := hcp [] (.ok w o) (by simp [Consistent])
         simpa using this
-    · exact (h j).frame (by simp [updF, hj]) rfl hm
+    · exact (h j).frame (by simp [updF, hj]) rfl (fun x => keep j x)
   | execFinishErr i e reads blocked hp =>
     intro j
     by_cases hj : j = i
     · subst hj
-      refine ⟨(h j).res_prov, ?_, ?_, (h j).cons_res⟩
+      refine ⟨rkeep j, ?_, ?_, (h j).cons_res⟩
       · intro x hx; simp [setPhase, phaseReads] at hx
       · unfold ConsPhase; simp only [setPhase, updF_same]
-    · other_tx3 h j hj
+    · other_tx3 h keep j hj
   | publishOne i run l todo newLoc v hp hl hv =>
     intro j
     by_cases hj : j = i
     · subst hj
       have hcp := (h j).cons_phase; unfold ConsPhase at hcp; rw [hp] at hcp
       have hpp := (h j).phase_prov; rw [hp] at hpp
-      refine ⟨(h j).res_prov, ?_, ?_, (h j).cons_res⟩
-      · intro x hx; simp only [updF_same, phaseReads] at hx; exact hpp x hx
+      refine ⟨rkeep j, ?_, ?_, (h j).cons_res⟩
+      · intro x hx; simp only [updF_same, phaseReads] at hx; exact keep j x (hpp x hx)
       · unfold ConsPhase; simp only [updF_same]; exact hcp
-    · other_tx3 h j hj
+    · other_tx3 h keep j hj
   | endPublish i run newLoc hp =>
     intro j
     by_cases hj : j = i
     · subst hj
       have hcp := (h j).cons_phase; unfold ConsPhase at hcp; rw [hp] at hcp
       have hpp := (h j).phase_prov; rw [hp] at hpp
-      refine ⟨(h j).res_prov, ?_, ?_, (h j).cons_res⟩
-      · intro x hx; simp only [setPhase, updF_same, phaseReads] at hx; exact hpp x hx
+      refine ⟨rkeep j, ?_, ?_, (h j).cons_res⟩
+      · intro x hx; simp only [setPhase, updF_same, phaseReads] at hx; exact keep j x (hpp x hx)
       · unfold ConsPhase; simp only [setPhase, updF_same]; exact hcp
-    · other_tx3 h j hj
+    · other_tx3 h keep j hj
   | removeOne i run l todo newLoc hp hl =>
     intro j
     by_cases hj : j = i
     · subst hj
       have hcp := (h j).cons_phase; unfold ConsPhase at hcp; rw [hp] at hcp
       have hpp := (h j).phase_prov; rw [hp] at hpp
-      refine ⟨(h j).res_prov, ?_, ?_, (h j).cons_res⟩
-      · intro x hx; simp only [updF_same, phaseReads] at hx; exact hpp x hx
+      refine ⟨rkeep j, ?_, ?_, (h j).cons_res⟩
+      · intro x hx; simp only [updF_same, phaseReads] at hx; exact keep j x (hpp x hx)
       · unfold ConsPhase; simp only [updF_same]; exact hcp
-    · other_tx3 h j hj
+    · other_tx3 h keep j hj
   | recordBlocked i run newLoc hp hb =>
     intro j
     by_cases hj : j = i
@@ -191,13 +233,13 @@ theorem inv3_step {P : Params} {s s' : State} (h2 : Inv2 s) (h : Inv3 P s) (hs :
       refine ⟨?_, ?_, ?_, ?_⟩
       · intro r hr x hx
         simp only [setPhase, updF_same] at hr; cases hr
-        exact hpp x hx
+        exact keep j x (hpp x hx)
       · intro x hx; simp [setPhase, phaseReads] at hx
       · unfold ConsPhase; simp only [setPhase, updF_same]
       · intro r hr _
         simp only [setPhase, updF_same] at hr; cases hr
         exact hcp
-    · other_tx3 h j hj
+    · other_tx3 h keep j hj
   | recordRewind i run newLoc handoff hp hb hn =>
     intro j
     by_cases hj : j = i
@@ -207,13 +249,13 @@ theorem inv3_step {P : Params} {s s' : State} (h2 : Inv2 s) (h : Inv3 P s) (hs :
       refine ⟨?_, ?_, ?_, ?_⟩
       · intro r hr x hx
         simp only [setPhase, updF_same] at hr; cases hr
-        exact hpp x hx
+        exact keep j x (hpp x hx)
       · intro x hx; simp [setPhase, phaseReads] at hx
       · unfold ConsPhase; simp only [setPhase, updF_same]
       · intro r hr _
         simp only [setPhase, updF_same] at hr; cases hr
         exact hcp
-    · other_tx3 h j hj
+    · other_tx3 h keep j hj
   | recordDirect i run hp hb =>
     intro j
     by_cases hj : j = i
@@ -223,45 +265,45 @@ theorem inv3_step {P : Params} {s s' : State} (h2 : Inv2 s) (h : Inv3 P s) (hs :
       refine ⟨?_, ?_, ?_, ?_⟩
       · intro r hr x hx
         simp only [updF_same] at hr; cases hr
-        exact hpp x hx
+        exact keep j x (hpp x hx)
       · intro x hx; simp [phaseReads] at hx
       · unfold ConsPhase; simp only [updF_same]
       · intro r hr _
         simp only [updF_same] at hr; cases hr
         exact hcp
-    · other_tx3 h j hj
+    · other_tx3 h keep j hj
   | markErrSome i e ow l todo en hp hl hm =>
     intro j
     by_cases hj : j = i
     · subst hj
-      refine ⟨(h j).res_prov, ?_, ?_, (h j).cons_res⟩
+      refine ⟨rkeep j, ?_, ?_, (h j).cons_res⟩
       · intro x hx; simp [phaseReads] at hx
       · unfold ConsPhase; simp only [updF_same]
-    · other_tx3 h j hj
+    · other_tx3 h keep j hj
   | markErrNone i e ow l todo hp hl hm =>
     intro j
     by_cases hj : j = i
     · subst hj
-      refine ⟨(h j).res_prov, ?_, ?_, (h j).cons_res⟩
+      refine ⟨rkeep j, ?_, ?_, (h j).cons_res⟩
       · intro x hx; simp [setPhase, phaseReads] at hx
       · unfold ConsPhase; simp only [setPhase, updF_same]
-    · other_tx3 h j hj
+    · other_tx3 h keep j hj
   | markValSome i l todo en hp hl hm =>
     intro j
     by_cases hj : j = i
     · subst hj
-      refine ⟨(h j).res_prov, ?_, ?_, (h j).cons_res⟩
+      refine ⟨rkeep j, ?_, ?_, (h j).cons_res⟩
       · intro x hx; simp [phaseReads] at hx
       · unfold ConsPhase; simp only [updF_same]
-    · other_tx3 h j hj
+    · other_tx3 h keep j hj
   | markValNone i l todo hp hl hm =>
     intro j
     by_cases hj : j = i
     · subst hj
-      refine ⟨(h j).res_prov, ?_, ?_, (h j).cons_res⟩
+      refine ⟨rkeep j, ?_, ?_, (h j).cons_res⟩
       · intro x hx; simp [setPhase, phaseReads] at hx
       · unfold ConsPhase; simp only [setPhase, updF_same]
-    · other_tx3 h j hj
+    · other_tx3 h keep j hj
   | endErrMark i e ow hp =>
     intro j
     by_cases hj : j = i
@@ -275,82 +317,82 @@ theorem inv3_step {P : Params} {s s' : State} (h2 : Inv2 s) (h : Inv3 P s) (hs :
       · intro r hr hok
         simp only [updF_same] at hr; cases hr
         obtain ⟨o, ho⟩ := hok; cases ho
-    · other_tx3 h j hj
+    · other_tx3 h keep j hj
   | tailTs i k st hp hk =>
     intro j
     by_cases hj : j = i
     · subst hj
-      refine ⟨(h j).res_prov, ?_, ?_, (h j).cons_res⟩
+      refine ⟨rkeep j, ?_, ?_, (h j).cons_res⟩
       · intro x hx; simp [phaseReads] at hx
       · unfold ConsPhase; simp only [updF_same]
-    · other_tx3 h j hj
+    · other_tx3 h keep j hj
   | tailLts i k ts st hp =>
     intro j
     by_cases hj : j = i
     · subst hj
-      refine ⟨(h j).res_prov, ?_, ?_, (h j).cons_res⟩
+      refine ⟨rkeep j, ?_, ?_, (h j).cons_res⟩
       · intro x hx; simp [phaseReads] at hx
       · unfold ConsPhase; simp only [updF_same]
-    · other_tx3 h j hj
+    · other_tx3 h keep j hj
   | tailSkip i k st hp hk =>
     intro j
     by_cases hj : j = i
     · subst hj
-      refine ⟨(h j).res_prov, ?_, ?_, (h j).cons_res⟩
+      refine ⟨rkeep j, ?_, ?_, (h j).cons_res⟩
       · intro x hx; simp [phaseReads] at hx
       · unfold ConsPhase; simp only [updF_same]
-    · other_tx3 h j hj
+    · other_tx3 h keep j hj
   | claimVal i hp hst =>
     intro j
     by_cases hj : j = i
     · subst hj
-      refine ⟨(h j).res_prov, ?_, ?_, (h j).cons_res⟩
+      refine ⟨rkeep j, ?_, ?_, (h j).cons_res⟩
       · intro x hx; simp [phaseReads] at hx
       · unfold ConsPhase; simp only [updF_same]
-    · other_tx3 h j hj
+    · other_tx3 h keep j hj
   | valTs i r hp hr =>
     intro j
     by_cases hj : j = i
     · subst hj
-      refine ⟨(h j).res_prov, ?_, ?_, (h j).cons_res⟩
+      refine ⟨rkeep j, ?_, ?_, (h j).cons_res⟩
       · intro x hx; simp [phaseReads] at hx
       · unfold ConsPhase; simp only [updF_same]
-    · other_tx3 h j hj
+    · other_tx3 h keep j hj
   | valCheck i ts done r todo conflict k hp hk =>
     intro j
     by_cases hj : j = i
     · subst hj
-      refine ⟨(h j).res_prov, ?_, ?_, (h j).cons_res⟩
+      refine ⟨rkeep j, ?_, ?_, (h j).cons_res⟩
       · intro x hx; simp [setPhase, phaseReads] at hx
       · unfold ConsPhase; simp only [setPhase, updF_same]
-    · other_tx3 h j hj
+    · other_tx3 h keep j hj
   | endScanConflict i ts done hp =>
     intro j
     by_cases hj : j = i
     · subst hj
-      refine ⟨(h j).res_prov, ?_, ?_, (h j).cons_res⟩
+      refine ⟨rkeep j, ?_, ?_, (h j).cons_res⟩
       · intro x hx; simp [setPhase, phaseReads] at hx
       · unfold ConsPhase; simp only [setPhase, updF_same]
-    · other_tx3 h j hj
+    · other_tx3 h keep j hj
   | endScanOk i ts done hp =>
     intro j
     by_cases hj : j = i
     · subst hj
-      refine ⟨(h j).res_prov, ?_, ?_, (h j).cons_res⟩
+      refine ⟨rkeep j, ?_, ?_, (h j).cons_res⟩
       · intro x hx; simp [phaseReads] at hx
       · unfold ConsPhase; simp only [updF_same]
-    · other_tx3 h j hj
+    · other_tx3 h keep j hj
   | endValMark i hp =>
     intro j
     by_cases hj : j = i
     · subst hj
-      refine ⟨(h j).res_prov, ?_, ?_, (h j).cons_res⟩
+      refine ⟨rkeep j, ?_, ?_, (h j).cons_res⟩
       · intro x hx; simp [setPhase, phaseReads] at hx
       · unfold ConsPhase; simp only [setPhase, updF_same]
-    · other_tx3 h j hj
+    · other_tx3 h keep j hj
   | finalize hi hp hst hg =>
-    intro j; exact (h j).frame rfl rfl (fun _ _ _ hh => hh)
+    intro j; exact (h j).frame rfl rfl (fun x => keep j x)
   | commit r hc hr =>
-    intro j; exact (h j).frame rfl rfl (fun _ _ _ hh => hh)
+    intro j; exact (h j).frame rfl rfl (fun x => keep j x)
 
 end Grevm.Sched
